@@ -87,6 +87,8 @@ func (filters) Generate(r *core.PRNG, tier string, idx int64) any {
 			in := Insertion{At: r.Intn(n + 1), Seed: r.Uint64(), Kind: "afonly", PID: sc.Model.Streams[r.Intn(len(sc.Model.Streams))].PID}
 			if r.Chance(1, 3) {
 				in.Kind, in.PID = "null", 0x1fff
+			} else if idx%2 == 0 && r.Chance(1, 5) {
+				in.Kind = "badsync" // skipper scenarios only
 			}
 			sc.Inserts = append(sc.Inserts, in)
 		}
@@ -203,6 +205,7 @@ func (filters) Execute(scAny any, keepLog bool) *core.Outcome {
 	// other for the skipper
 	pkts := b.Packets
 	metas := b.Meta
+	nbad := 0
 	if len(sc.Inserts) > 0 {
 		ins := append([]Insertion{}, sc.Inserts...)
 		sort.SliceStable(ins, func(a, c int) bool { return ins[a].At < ins[c].At })
@@ -214,6 +217,15 @@ func (filters) Execute(scAny any, keepLog bool) *core.Outcome {
 				if ins[j].Kind == "null" || ins[j].Kind == "afonly" {
 					pkts = append(pkts, buildInsertion(ins[j], lastCC))
 					metas = append(metas, refts.PktMeta{Stream: -1})
+				}
+				if ins[j].Kind == "badsync" {
+					// 188 bytes that do not start with a sync byte: an error for NextPacket, with or
+					// without skipper (the predicate is never consulted: there is nothing parsed to show it)
+					raw := refts.NullPacket(0)
+					raw[0] = 0x48
+					pkts = append(pkts, raw)
+					metas = append(metas, refts.PktMeta{Stream: -2})
+					nbad++
 				}
 				j++
 			}
@@ -240,9 +252,12 @@ func (filters) Execute(scAny any, keepLog bool) *core.Outcome {
 			afs = append(afs, core.Dump(r.P.AdaptationField))
 		}
 	}
-	if len(hdrs) != npk {
+	if len(hdrs) != npk-nbad {
 		out.Probe("baseline-mismatch")
 		return out
+	}
+	if nbad > 0 {
+		out.Fire("unparsable-packet")
 	}
 
 	if len(pkts) > len(b.Packets) {
@@ -253,8 +268,15 @@ func (filters) Execute(scAny any, keepLog bool) *core.Outcome {
 		// reference: delete the selected packets
 		var filtered [][]byte
 		nskip := 0
-		for i, p := range pkts {
-			dp, _ := refts.DecodePacket(p)
+		calls := 0
+		for _, p := range pkts {
+			dp, derr := refts.DecodePacket(p)
+			if derr != nil {
+				filtered = append(filtered, p) // not a packet: cannot be selected, predicate not consulted
+				continue
+			}
+			i := calls // stateful predicates count consultations
+			calls++
 			rai, pcr := false, false
 			if dp.AF != nil {
 				rai, pcr = dp.AF.RAI, dp.AF.PCR != nil
@@ -313,8 +335,8 @@ func (filters) Execute(scAny any, keepLog bool) *core.Outcome {
 			if ok, msg := seqEq(want, got); !ok {
 				out.Violate("C19", "skipper-not-deletion", api+"/"+s.Kind, "Next%s with skipper %s (%d of %d packets selected) differs from the stream with those packets deleted: %s", api, s.Kind, nskip, npk, msg)
 			}
-			if len(logs) != npk {
-				out.Violate("C19", "skipper-call-count", api, "skipper consulted %d times for %d packets (Next%s)", len(logs), npk, api)
+			if len(logs) != npk-nbad {
+				out.Violate("C19", "skipper-call-count", api, "skipper consulted %d times for %d packets (Next%s)", len(logs), npk-nbad, api)
 			} else {
 				for i := range logs {
 					if logs[i].hdr != hdrs[i] || logs[i].af != afs[i] {
@@ -409,7 +431,7 @@ func (filters) Execute(scAny any, keepLog bool) *core.Outcome {
 			// fault-free stream: the groups are exactly the generated units
 			wantGroups := map[uint16][][]string{}
 			for i, mt := range metas {
-				if mt.Stream < 0 {
+				if mt.Stream < 0 || basePk[i].P == nil {
 					continue
 				}
 				pkd := core.Dump(basePk[i].P)
